@@ -79,11 +79,19 @@ def gen(seed, tier="quick"):
         # i-th invocation (classifier call counts legitimately differ between entry points, so classifiers are left
         # out); every entry point must do the same work up to that point and let the same error out
         call = scn["calls"][0]
-        site = r.choice(["strategy", "strategy", "sleeper", "attempt_start"])
-        if site == "attempt_start":
+        site = r.choice(["strategy", "strategy", "sleeper", "attempt_start"])    # (attempt_end: where the hook runs relative to the breaker record legitimately differs)
+        if site.startswith("attempt_"):
             scn["place"]["att_hooks"] = "call"       # per-call hooks exist on every entry point
         call["faults"] = [{"site": site, "at": r.randrange(0, 3),
                            "exc": r.choice(["ValueError", "RuntimeError", "KeyError", "Custom"]), "kind": "callback_raise"}]
+    if r.random() < 0.12:
+        # async entry points get a plain callable that returns an awaitable; some failures happen eagerly, at call time
+        scn["cfg"]["eager_async_op"] = True
+        for c in scn["calls"]:
+            for st in c["attempts"]:
+                if st["kind"] == "exc" and r.random() < 0.6:
+                    st["eager"] = True
+                    st["dur"] = 0
     if r.random() < 0.4:
         scn["cfg"]["breaker"] = {"kind": "real", "failure_threshold": r.choice([1, 2, 3]), "window_us": 60_000_000,
                                  "recovery_us": r.choice([1_000_000, 30_000_000])}
